@@ -166,7 +166,11 @@ def translate (hs : List Path) : Call → Except Err Call
       | .ok true => .error .hiddenPerm
       | .ok false =>
         hguard hs n .hiddenPerm
-        pure (.rename o n)
+        -- a (missing) parent directory of a hidden path as the new name is refused as well
+        match isParentOfHidden n hs with
+        | .error e => .error e
+        | .ok true => .error .hiddenPerm
+        | .ok false => pure (.rename o n)
   | .stat n => do hguard hs n .hiddenNotExist; pure (.stat n)
   | .chmod n m => do hguard hs n .hiddenNotExist; pure (.chmod n m)
   | .chown n u g => do hguard hs n .hiddenNotExist; pure (.chown n u g)
